@@ -51,6 +51,8 @@ impl StringFormatter<'_> {
                 self.try_rewrite_string(tok.get_content(), fmt, base_indentation)
             {
                 if new_string_contents != tok.get_content() {
+                    #[cfg(feature = "verif_hooks")]
+                    crate::verif::step("reindent_string", &[idx as i64]);
                     tok.set_content(new_string_contents);
                     changed = true
                 }
